@@ -220,6 +220,9 @@ func checkRoundTrip(m gen.Val, c *vcommon.Ctx) *vcommon.Failure {
 
 type Src struct {
 	B []byte `json:"b"`
+	// Dress names the byte-level dressing the generator applied (evidence
+	// class only; the oracle reads B alone).
+	Dress string `json:"dress,omitempty"`
 }
 
 type tree struct {
@@ -283,6 +286,9 @@ func readModes(src []byte) (strict, fmtTree, ftTree tree, strictErr, fmtErr erro
 func checkModes(s Src, c *vcommon.Ctx) *vcommon.Failure {
 	strict, ft, tol, e1, e2, e3 := readModes(s.B)
 	acc1, acc2, acc3 := e1 == nil, e2 == nil, len(e3) == 0
+	if s.Dress != "" {
+		c.Class("dressed/" + s.Dress)
+	}
 	if acc1 {
 		c.Class("accepted")
 		if strict.n >= 3 {
@@ -314,6 +320,10 @@ var lexemes = []string{
 	"\"\\q\"", "\"unterminated", "\"\"\"raw\"\"\"", "\"\"\"\"", "\"\"\"a\"b\"\"\"", ";c\n", "; c", " ", "\n", "\t", "\r", "\x00", "\xff", "é",
 	"λ", "#", "#a", "{", "}", "`", ",", ",@", "@", "|", "\\", "true", "false", "()", "'()", "''a", "#'f", "#'a:b", "#'1",
 	"#^(+ % 1)", "#^%", "(lambda (x) x)", "%1", "%&rest", "\u2028", "-a", "-.5", "-1a", "1a", "1-", "a-", "-)", "(-)", "(- )",
+	// bytes a text tool is tempted to normalise before it parses: a byte-order
+	// mark, CRLF line ends (also INSIDE a raw string, where they are data), a
+	// decomposed accent, a zero-width space, a DOS end-of-file mark
+	"\ufeff", "\r\n", "\"\"\"a\r\nb\"\"\"", "\"\"\"\r\n\"\"\"", "; c\r\n", "e\u0301", "\u200b", "\x1a",
 }
 
 var repoSnippets = []string{
@@ -325,14 +335,65 @@ var repoSnippets = []string{
 	"(defmacro m (x &rest ys) (quasiquote (list (unquote x) (unquote-splicing ys))))",
 	"(sorted-map :a 1 \"b\" '(2 #xFF #o17) 'c \"\"\"raw \"q\" string\"\"\")",
 	"(funcall #'+ 1 2) (#^(+ % %2) 1 2) '''deep",
+	"(set 'doc \"\"\"line one\nline two\n\"\"\") ; two lines\n(f doc \"\"\"\n\"\"\")\n",
+}
+
+// dressings are byte-level changes that leave a program's meaning to the
+// readers: each reader has to make the SAME decision about the dressed text
+// (the temptation is to "clean" the input in the reader that serves editors
+// and formatters only).
+var dressings = []string{"bom", "crlf", "cr", "bom+crlf", "trailing-eof-mark", "trailing-nul", "nfd", "final-newline-dropped", "leading-blank-lines"}
+
+func dress(kind string, src string) string {
+	switch kind {
+	case "bom":
+		return "\ufeff" + src
+	case "crlf":
+		return strings.ReplaceAll(src, "\n", "\r\n")
+	case "cr":
+		return strings.ReplaceAll(src, "\n", "\r")
+	case "bom+crlf":
+		return "\ufeff" + strings.ReplaceAll(src, "\n", "\r\n")
+	case "trailing-eof-mark":
+		return src + "\x1a"
+	case "trailing-nul":
+		return src + "\x00"
+	case "nfd":
+		return strings.NewReplacer("é", "e\u0301", "a", "a\u0300").Replace(src)
+	case "final-newline-dropped":
+		return strings.TrimRight(src, "\n")
+	case "leading-blank-lines":
+		return "\r\n\r\n" + src
+	}
+	return src
 }
 
 func genSource() *rapid.Generator[Src] {
 	return rapid.Custom(func(t *rapid.T) Src {
-		k := rapid.IntRange(0, 9).Draw(t, "class")
+		k := rapid.IntRange(0, 10).Draw(t, "class")
 		switch {
+		case k == 10:
+			// a valid program (repo snippet or printed values, one per line)
+			// in a dressing; at most one further mutation
+			var src string
+			if rapid.Bool().Draw(t, "printed") {
+				var b strings.Builder
+				for i, n := 0, rapid.IntRange(1, 3).Draw(t, "n"); i < n; i++ {
+					b.WriteString(gen.GenVal(3).Draw(t, "v").ToLVal().String())
+					b.WriteString(rapid.SampledFrom([]string{"\n", " ; c\n", "\n\n"}).Draw(t, "eol"))
+				}
+				src = b.String()
+			} else {
+				src = rapid.SampledFrom(repoSnippets).Draw(t, "snip")
+			}
+			kind := rapid.SampledFrom(dressings).Draw(t, "dress")
+			src = dress(kind, src)
+			if rapid.IntRange(0, 3).Draw(t, "mut") == 0 {
+				return Src{B: mutate(t, []byte(src)), Dress: kind}
+			}
+			return Src{B: []byte(src), Dress: kind}
 		case k == 0:
-			return Src{rapid.SliceOfN(rapid.Byte(), 0, 40).Draw(t, "bytes")}
+			return Src{B: rapid.SliceOfN(rapid.Byte(), 0, 40).Draw(t, "bytes")}
 		case k <= 4:
 			n := rapid.IntRange(0, 14).Draw(t, "n")
 			var b strings.Builder
@@ -342,7 +403,7 @@ func genSource() *rapid.Generator[Src] {
 					b.WriteString(rapid.SampledFrom([]string{" ", "\n", "  ", "\t"}).Draw(t, "sep"))
 				}
 			}
-			return Src{[]byte(b.String())}
+			return Src{B: []byte(b.String())}
 		case k <= 6:
 			// printed data values, possibly concatenated and mutated
 			n := rapid.IntRange(1, 3).Draw(t, "n")
@@ -351,10 +412,10 @@ func genSource() *rapid.Generator[Src] {
 				b.WriteString(gen.GenVal(3).Draw(t, "v").ToLVal().String())
 				b.WriteString(rapid.SampledFrom([]string{" ", "\n", "", ";x\n"}).Draw(t, "sep"))
 			}
-			return Src{mutate(t, []byte(b.String()))}
+			return Src{B: mutate(t, []byte(b.String()))}
 		default:
 			s := rapid.SampledFrom(repoSnippets).Draw(t, "snip")
-			return Src{mutate(t, []byte(s))}
+			return Src{B: mutate(t, []byte(s))}
 		}
 	})
 }
@@ -551,9 +612,9 @@ func (l Large) text() string {
 	case "one-string":
 		return lisp.String(strings.Repeat("a", l.Inner) + strings.Repeat(unit+"b", l.KB*1024/(len(unit)+1))).String()
 	case "one-comment":
-		return "(list 1)\n; " + strings.Repeat("(x "+unit+") ", l.KB*1024/(len(unit)+5)) + "\n(list 2)"
+		return "(list 1)\n; " + l.commentBody() + "\n(list 2)"
 	case "one-hashbang":
-		return "#!" + strings.Repeat("(x "+unit+") ", l.KB*1024/(len(unit)+5)) + "\n(list 1)\n(list 2)"
+		return "#!" + l.commentBody() + "\n(list 1)\n(list 2)"
 	case "inner-comment":
 		return "(list 1 ;" + strings.Repeat("x"+unit, l.KB*1024/(len(unit)+1)) + " 3 4\n 2)"
 	case "one-symbol":
@@ -574,6 +635,19 @@ func (l Large) text() string {
 	}
 	b.WriteString(")")
 	return b.String()
+}
+
+// commentBody is the text of a huge comment or hash-bang line.  With an even
+// Inner it looks like code with brackets; with an odd Inner it is a run of
+// plain words, so that a tail cut off and read as code is ACCEPTED (as extra
+// symbols) instead of failing on an unbalanced bracket -- a cut that makes all
+// readers reject alike is indistinguishable from the size limit itself.
+func (l Large) commentBody() string {
+	unit := largeUnits[l.Unit%len(largeUnits)]
+	if l.Inner%2 == 1 {
+		return strings.Repeat("x"+unit+" ", l.KB*1024/(len(unit)+2))
+	}
+	return strings.Repeat("(x "+unit+") ", l.KB*1024/(len(unit)+5))
 }
 
 // longSymbol is one readable symbol of about KB kilobytes (letters only, the
@@ -601,7 +675,79 @@ func (l Large) largeExpect() (string, bool) {
 	return "", false
 }
 
+// nearLimitSeps are white-space separators of one, two and three bytes.
+var nearLimitSeps = []string{" ", "\n", "\t", "\u00a0", "\u0085", "\u2028", "\u3000"}
+
+// checkNearLimit: a symbol a few bytes below / above the scanner window,
+// followed by one white-space character.  WHICH white-space character follows
+// a complete token must not decide whether the text is accepted: the rendering
+// with that separator is compared with the rendering with one ASCII space.
+//
+//	Pad   -> size of the symbol: DefaultBufSize-8+Pad (Pad 0..9: W-8 .. W+1)
+//	Unit  -> separator (nearLimitSeps)
+//	Inner -> context: top level / inside a list / last element of a list
+func checkNearLimit(l Large, c *vcommon.Ctx) *vcommon.Failure {
+	if l.Pad < 0 || l.Pad > 16 || l.Unit < 0 || l.Inner < 0 {
+		return nil
+	}
+	w := token.DefaultBufSize
+	n := w - 8 + l.Pad
+	sep := nearLimitSeps[l.Unit%len(nearLimitSeps)]
+	sym := strings.Repeat("a", n)
+	var pre, post string
+	switch l.Inner % 3 {
+	case 0:
+		pre, post = "", "(f)"
+	case 1:
+		pre, post = "(list 1 ", "2)"
+	default:
+		pre, post = "(list ", ")"
+	}
+	c.Class("shape/near-limit")
+	c.NonTrivial(fmt.Sprintf("near-limit/%d/%d/%d", l.Pad, l.Unit%len(nearLimitSeps), l.Inner%3))
+	if n < w && n+len(sep) > w {
+		// KNOWN on the unchanged tree (3487844): a token that fits the window
+		// is refused with "token exceeds maximum allowable size" when the
+		// window ends inside the multi-byte white-space character that FOLLOWS
+		// it (Scanner.TokenTooLarge cannot tell a cut token from a complete
+		// one followed by a cut rune).  131070 x "a" + U+2028 + "(f)" is
+		// rejected, 131070 x "a" + " (f)" is accepted.  Excluded by
+		// construction and counted.
+		c.Class("skip/near-limit-multibyte-separator")
+		return nil
+	}
+	ref := []byte(pre + sym + " " + post)
+	src := []byte(pre + sym + sep + post)
+	if f := checkModes(Src{B: src}, nil); f != nil {
+		return f
+	}
+	a, _, _, ea, _, _ := readModes(ref)
+	b, _, _, eb, _, _ := readModes(src)
+	if (ea == nil) != (eb == nil) {
+		return vcommon.Failf("large/near-limit-separator", "a symbol of %d bytes (scanner window %d) followed by %q is read differently than followed by one space: with the space %v, with %q %v", n, w, sep, errOrOK(ea), sep, errOrOK(eb))
+	}
+	if ea == nil {
+		c.Class("near-limit/accepted")
+		if a.s != b.s {
+			return vcommon.Failf("large/near-limit-tree", "a symbol of %d bytes followed by %q reads to a different tree than followed by one space", n, sep)
+		}
+	} else {
+		c.Class("near-limit/rejected")
+	}
+	return nil
+}
+
+func errOrOK(err error) string {
+	if err == nil {
+		return "accepted"
+	}
+	return "rejected (" + err.Error() + ")"
+}
+
 func checkLarge(l Large, c *vcommon.Ctx) *vcommon.Failure {
+	if l.Shape == "near-limit" {
+		return checkNearLimit(l, c)
+	}
 	if l.KB < 1 || l.KB > 2000 || l.Pad < 0 || l.Inner < 0 {
 		return nil
 	}
@@ -677,7 +823,7 @@ func genLarge() *rapid.Generator[Large] {
 			KB:    rapid.SampledFrom([]int{1, 60, 127, 129, 140, 200, 260, 300, 390, 520}).Draw(t, "kb"),
 			Pad:   rapid.IntRange(0, 9).Draw(t, "pad"),
 			Inner: rapid.IntRange(0, 6).Draw(t, "inner"),
-			Shape: rapid.SampledFrom([]string{"", "", "", "one-string", "one-comment", "one-hashbang", "inner-comment", "one-symbol", "spaces", "newlines", "mixed-space"}).Draw(t, "shape"),
+			Shape: rapid.SampledFrom([]string{"", "", "", "one-string", "one-comment", "one-hashbang", "inner-comment", "one-symbol", "spaces", "newlines", "mixed-space", "near-limit"}).Draw(t, "shape"),
 		}
 	})
 }
